@@ -24,6 +24,7 @@ SHAPE = {
     "K$7$": {"digest": 43, "min": None, "max": None, "digest_undecided": "scrypt result is assembled with range-length copies; provenance positions are blurred"},
     # $y$<flavor,N,r: 1..6 chars each>[<have><p><t><g><NROM>]$<salt: 0..86 chars>$<43>
     "K$y$": {"digest": 43, "min": None, "max": None, "digest_undecided": "yescrypt result is assembled with range-length copies; provenance positions are blurred (decided for generated settings by X-GEN-SHAPE)"},
+    "K$gy$": {"digest": 43, "min": None, "max": None, "digest_undecided": "gost-yescrypt is not in the crypt grid; decided for generated settings by X-GEN-SHAPE"},
     "K$md5": {"digest": 22, "min": 4 + 1 + 0 + 1 + 22, "max": None},  # $md5[,rounds=N]$salt$[$]digest ; salt of any length is hashed and echoed
     # crypt.5's regex for sha1crypt asks for 40..96 trailing characters; HMAC-SHA1 (20 bytes, 21 encoded) gives 28
     "K$sha1": {"digest": 28, "min": 6 + 1 + 1 + 0 + 1 + 28, "max": 6 + 10 + 1 + 64 + 1 + 28, "slack": 10,
